@@ -134,4 +134,27 @@ def check_case(case):
             if mn != full_intent:
                 if add('infimum.minimal', C_INF, full_intent, mn, concept=concept):
                     return out
+    # overlapping use: two enumerations alive at once, and minimal() while an enumeration is only partly consumed
+    # (every generator must own its state) -- on the first few concepts with a non-empty extent
+    import itertools as _it
+    live = [c for c, e in zip(cs, ext) if e][:4]
+    CAP = 40
+    for a in live:
+        for b in live:
+            seq_a, seq_b = list(_it.islice(a.attributes(), CAP)), list(_it.islice(b.attributes(), CAP))
+            zipped = list(_it.islice(zip(a.attributes(), b.attributes()), CAP))
+            want = list(zip(seq_a, seq_b))
+            if zipped != want:
+                if add('attributes.interleaved', C_ATTR + ' (two enumerations consumed in lockstep)', want[:6], zipped[:6],
+                       concepts=[sorted(idx(a._extent)), sorted(idx(b._extent))]):
+                    return out
+                break
+        nested = []
+        for t in _it.islice(a.attributes(), CAP):
+            a.minimal()
+            nested.append(t)
+        if nested != list(_it.islice(a.attributes(), CAP)):
+            if add('attributes.interleaved', C_ATTR + ' (minimal() called while the enumeration is partly consumed)',
+                   list(_it.islice(a.attributes(), 6)), nested[:6], concept=sorted(idx(a._extent))):
+                return out
     return out[:MAX_FAIL]
